@@ -173,6 +173,7 @@ impl Exec {
                 id
             };
             self.steps += 1;
+            explore::watch::tick();
             let t = &mut self.tasks[pick];
             if let Some(fut) = t.fut.as_mut() {
                 t.polls += 1;
@@ -196,6 +197,7 @@ impl Exec {
             }
             on_step(pick);
         }
+        explore::watch::idle();
         Quiescence {
             steps: self.steps,
             pending: self
